@@ -26,8 +26,10 @@ impl<'de> Deserialize<'de> for TimeStamp {
     fn deserialize<D: Deserializer<'de>>(
         de: D,
     ) -> ::std::result::Result<Self, D::Error> {
-        let form: &str = Deserialize::deserialize(de)?;
-        DateTime::parse_from_rfc3339(form)
+        // an owned string: a borrowed `&str` cannot be produced from a reader,
+        // from a buffered serde_json::Value or from text with escape sequences
+        let form: String = Deserialize::deserialize(de)?;
+        DateTime::parse_from_rfc3339(&form)
             .map(TimeStamp)
             .map_err(|e| DeserializeError::custom(format!("{:?}", e)))
     }
